@@ -390,6 +390,32 @@ Theorem C16_enveloped_precheck_gives_hypothesis :
 Proof. exact precheck_root_first_sig_is_own. Qed.
 Print Assumptions C16_enveloped_precheck_gives_hypothesis.
 
+(* ... hence: were parse_and_check_signature to make that pre-check on the root
+   (name nm, ID v) before calling the tool, (4b) would hold in full *)
+Theorem C16_own_signature_verifies_under_precheck :
+  forall dupfail now s nm v pl kids cert m,
+    precheck (El nm (Some v) pl kids) nm (Some v) = true ->
+    s_kind s <> Inline -> s_cert s = true -> root_signed (El nm (Some v) pl kids) = true ->
+    load_source now (signed_source s dupfail (El nm (Some v) pl kids) nm cert) = Ok m ->
+    own_signature_ok (El nm (Some v) pl kids) nm cert = true.
+Proof.
+  intros dupfail now s nm v pl kids cert m Hpre Hk Hc Hs Hl.
+  exact (own_signature_partial _ _ _ _ _ _ _ Hk Hc Hs (precheck_root_first_sig_is_own _ _ _ _ Hpre) Hl).
+Qed.
+Print Assumptions C16_own_signature_verifies_under_precheck.
+
+(* (4c) NOT the code this check expects: the loader with the follow-up
+   proposed_fix/C16-2-after-C01-1 (pre-check of the root before the tool is
+   called, Model/MdSig.v signed_source_prechecked) satisfies (4b) in full for
+   a root element of the registered name *)
+Theorem C16_prechecked_loader_full :
+  forall dupfail now s nm i pl kids cert m,
+    s_kind s <> Inline -> s_cert s = true -> root_signed (El nm i pl kids) = true ->
+    load_source now (signed_source_prechecked s dupfail (El nm i pl kids) nm cert) = Ok m ->
+    own_signature_ok (El nm i pl kids) nm cert = true.
+Proof. exact prechecked_loader_full. Qed.
+Print Assumptions C16_prechecked_loader_full.
+
 (* ---- (5) configuration round trip ------------------------------------------
    loading the descriptor generated from a configuration serves, for every role
    type, service and binding, exactly the endpoints do_endpoints makes of the
